@@ -11,7 +11,14 @@ pub fn workers() -> usize {
 }
 
 pub fn install_quiet_panic_hook() {
-    std::panic::set_hook(Box::new(|_| {}));
+    // worker-thread panics are caught and reported per case; a panic on the
+    // main thread is a harness failure and must be visible
+    std::panic::set_hook(Box::new(|info| {
+        let main = std::thread::current().name() == Some("main");
+        if main || std::env::var("VERIF_DEBUG").is_ok() {
+            eprintln!("panic: {}", info);
+        }
+    }));
 }
 
 pub fn panic_msg(e: Box<dyn std::any::Any + Send>) -> String {
